@@ -12,6 +12,10 @@ VERIF = os.path.dirname(os.path.dirname(os.path.abspath(__file__)))
 REPO = "/repo"
 
 
+def ALL_PROPS():
+    return [c["property_id"] for c in json.load(open(os.path.join(VERIF, "MANIFEST.json")))["checks"]]
+
+
 def selftest(args):
     st = subprocess.run(["git", "-C", REPO, "status", "--porcelain", "--untracked-files=no"], capture_output=True, text=True).stdout.strip()
     if st:
@@ -23,6 +27,11 @@ def selftest(args):
         d = os.path.join(VERIF, "seeded", tag)
         meta = json.load(open(os.path.join(d, "meta.json")))
         props = meta.get("selftest_checks") or [meta.get("property") or tag[:3]]
+        # behaviour-preserving patches (kind = benign) and stored changes that a later fix of /repo neutralised: the property HOLDS on the
+        # patched tree, so the expectation is the opposite one - no check may print VIOLATION (exit 0 or 2)
+        holds = meta.get("kind") == "benign" or bool(meta.get("neutralised_by"))
+        if holds:
+            props = meta.get("quiet_checks") or ([meta.get("property")] if meta.get("property") else ALL_PROPS())
         p = subprocess.run(["git", "-C", REPO, "apply", os.path.join(d, "patch.diff")], capture_output=True, text=True)
         if p.returncode != 0:
             print("%s: patch no longer applies (%s)" % (tag, p.stderr.strip()[:100]))
@@ -35,7 +44,13 @@ def selftest(args):
                 if r.returncode == 1 and ("VIOLATION property=%s" % prop) in r.stdout:
                     hit = [l for l in r.stdout.splitlines() if l.startswith("VIOLATION")][0]
                     break
-            if hit:
+            if holds:
+                if hit:
+                    bad += 1
+                    print("%s: FALSE ALARM on a tree where the property holds: %s" % (tag, hit))
+                else:
+                    print("%s: quiet (no VIOLATION from %s), as expected of a %s" % (tag, ",".join(props) if len(props) < 6 else "%d checks" % len(props), "benign patch" if meta.get("kind") == "benign" else "neutralised change"))
+            elif hit:
                 print("%s: detected  %s" % (tag, hit))
             else:
                 bad += 1
